@@ -93,7 +93,9 @@ def make_traj(md, rng, n_frames, n_atoms, force_ortho=None):
                 p = origin + np.array([rng.choice([0.0, 1.0, rng.random()]) * side for _ in range(3)])
             else:
                 mode = rng.random()
-                scale = 1.0 if mode < 0.4 else (6.0 if mode < 0.8 else 0.02)
+                # inside the cell, a few cells away, tens of cells away (an unwrapped trajectory after a long run: the number of box lengths
+                # to shift by must still come out right), nearly coincident
+                scale = 1.0 if mode < 0.4 else (6.0 if mode < 0.68 else (40.0 if mode < 0.8 else 0.02))
                 p = np.array([rng.uniform(-scale, scale) * span for _ in range(3)])
             xyz[f, a] = np.round(p * GRID) / GRID
     t = md.Trajectory(xyz, top)
